@@ -387,8 +387,8 @@ func fnFlushDb(ctx *cmdContext, args map[string]any) (output respValue, err erro
 }
 
 func fnDbSize(ctx *cmdContext, args map[string]any) (output respValue, err error) {
-	size, _ := ctx.cs.dss.dbSize(ctx.cs.selectedDb)
-	output.data = size
+	// count under the database lock, and only keys that have not expired
+	output.data = respInt(ctx.dsc.liveKeyCount())
 	return
 }
 
